@@ -1142,12 +1142,12 @@ fn main() {
     let dbg_threads: Option<usize> = std::env::var("C23_THREADS").ok().and_then(|s| s.parse().ok());
     ck.set_threads(dbg_threads.unwrap_or(16));
     let t0 = std::time::Instant::now();
-    ck.prop("sequential-histories", ck.pick(150_000, 6_000_000), case_strategy, oracle_sequential);
+    ck.prop("sequential-histories", ck.pick(150_000, 3_000_000), case_strategy, oracle_sequential);
     let t_seq = t0.elapsed().as_secs_f64();
 
     ck.set_threads(dbg_threads.unwrap_or(8));
     let iterations = ck.pick(25, 100) as usize;
-    ck.prop("shuttle-schedules", ck.pick(2_400, 60_000), scase_strategy, move |c| oracle_shuttle(c, iterations));
+    ck.prop("shuttle-schedules", ck.pick(2_400, 16_000), scase_strategy, move |c| oracle_shuttle(c, iterations));
     let t_shuttle = t0.elapsed().as_secs_f64() - t_seq;
     ck.extra(
         "shuttle",
@@ -1161,7 +1161,7 @@ fn main() {
     );
 
     ck.set_threads(2);
-    ck.prop("real-threads-smoke", ck.pick(48, 10_000), rcase_strategy, oracle_real_threads);
+    ck.prop("real-threads-smoke", ck.pick(48, 1_200), rcase_strategy, oracle_real_threads);
     if !ck.is_replay() {
         if let Some((case, sig, detail)) = FIRST_REAL_THREAD_FAILURE.lock().unwrap().take() {
             // no-op if the engine already reported this signature from the shrunk case
